@@ -4,6 +4,10 @@ Tie to the code:
   * every loop condition / body / prologue / epilogue of flowjax/bisection_search.py is REGENERATED from
     /repo (Gen/Bisection.lean: adaptInit, adaptCond, adaptBody, adaptExit, bisCond, bisBody, bisExit) and the
     theorems of Props/C10.lean are about those generated definitions;
+  * the WHOLE functions (argument handling, guards, the call of the adaptation, both while_loops with their initial states, the scan
+    with its closures, AutoregressiveBisectionInverter.__call__ / __check_init__) are ALSO regenerated (Gen/BisectionGen.lean, py2meth,
+    world Model/BisectWorld.lean), proved equal to the hand model, and run HERE beside it (ops gbis / gar / ginv / garcheck): bit for bit
+    against the hand model at Rat and Float, and against the real code in the same classes as the hand model;
   * the JAX combinators (lax.while_loop as fuel iteration, lax.scan with carry (y, i), the glue of
     _bisection_search / _autoregressive_bisection_search, the ValueError guards) are hand-modelled in
     Model/Bisection.lean and validated HERE: the model is run at exact `Rat` and at `Float` and compared with
@@ -40,7 +44,7 @@ import vlib
 from vlib import f2b, b2f
 
 ID = "C10"
-GEN = ["Bisection"]
+GEN = ["Bisection", "BisectionGen"]
 RULE = ("scalar searches: function family (lin a·x+b, pw kinked piecewise-linear, cubic, sinh, tanh-saturating) × "
         "initial bracket × root placement (inside, exactly on either end, on the first midpoint, on a later midpoint, "
         "just outside either end, exactly on an expansion end, ~1e6 away on either side) × tol 1e-2..1e-9 (and dyadic) × "
@@ -54,6 +58,10 @@ RULE = ("scalar searches: function family (lin a·x+b, pw kinked piecewise-linea
 TRUSTED = [
     "Lean 4.33 kernel; Mathlib v4.33; axioms propext, Classical.choice, Quot.sound",
     "py2lean translator + typing sheet tools/py2lean/targets_bisect.py (validated by this correspondence)",
+    "py2meth translator + typing sheet tools/py2lean/targets_bisectgen.py: the WHOLE functions _adapt_interval_to_include_root, _bisection_search, "
+    "_autoregressive_bisection_search, AutoregressiveBisectionInverter.__call__/__check_init__ regenerated as Gen/BisectionGen.lean and proved equal to "
+    "Model/Bisection.lean (Proofs/BisectionGen.lean); trusted: Model/BisectWorld.lean (lax.while_loop = whileFuel with explicit fuel, lax.scan = left fold "
+    "over range(length), jnp.full/.at[].set/indexing) — the generated definitions are run here beside the hand model (ops gbis/gar/ginv/garcheck)",
     "Prelude/Jnp.lean specs of where/sign/logical_and/getItem (validated by this correspondence)",
     "Model/Bisection.lean: lax.while_loop as fuel-indexed iteration, lax.scan as a recursion on the carry (y, i), glue of "
     "_bisection_search/_autoregressive_bisection_search, ValueError guards (hand-written, validated bit-for-bit here)",
@@ -312,7 +320,33 @@ def bis_line(case, mode):
                     + fn_tokens(case["fam"], case["coef"], mode))
 
 
-def check_scalar(c, case, jit, outR, outF):
+def gen_line(line):
+    """the same op on the GENERATED whole functions (`bis` -> `gbis`, `ar` -> `gar`, `archeck` -> `garcheck`)"""
+    return "g" + line
+
+
+def check_gen_scalar(c, info, real, bitwise, jit, out_model, out_gen, mode):
+    """generated `_bisection_search` / `_adapt_interval_to_include_root` beside the hand model (bit for bit: root, both counts, adapted
+    bracket) and, in the bitwise classes, against the real code"""
+    if out_gen is None:
+        return
+    c.count(f"generated:scalar:{mode}")
+    mt, gt = out_model.split(" "), out_gen.split(" ")
+    if mt[0] != "ok" or gt[0] != "ok":
+        if mt[0] != gt[0]:
+            c.mismatch("generated-vs-model-scalar", mode=mode, model=out_model[:120], generated=out_gen[:120], **info)
+        return
+    if mt[1:6] != gt[1:6] or gt[2] != gt[6]:
+        c.mismatch("generated-vs-model-scalar", mode=mode, model=mt[1:6], generated=gt[1:7], **info)
+    if mode == "F" and bitwise:
+        ok = (same_float(real["root"], b2f(gt[1])) and real["ai"] == int(gt[2]) and real["it"] == int(gt[3])
+              and same_float(real["lo0"], b2f(gt[4])) and same_float(real["hi0"], b2f(gt[5])) and real["ai0"] == int(gt[6]))
+        if not ok:
+            c.mismatch("generated-vs-impl-scalar-bitwise", generated=[b2f(gt[1]), gt[2], gt[3], b2f(gt[4]), b2f(gt[5]), gt[6]],
+                       impl=dict(root=real["root"], ai=real["ai"], it=real["it"], lo0=real["lo0"], hi0=real["hi0"], ai0=real["ai0"]), **info)
+
+
+def check_scalar(c, case, jit, outR, outF, goutR=None, goutF=None):
     fam, tol, mi = case["fam"], case["tol"], case["mi"]
     info = dict(fam=fam, coef=[str(v) for v in case["coef"]], lower=str(case["lower"]), upper=str(case["upper"]), tol=tol,
                 max_iter=mi, placement=case["how"], jit=jit)
@@ -342,6 +376,9 @@ def check_scalar(c, case, jit, outR, outF):
     if real["ai0"] != real["ai"]:
         c.mismatch("adapt-iterations-differ-between-entry-points", impl=real, **info)
     bitwise = exact or (not jit and fam in POLY_FAMS)
+    check_gen_scalar(c, info, real, bitwise, jit, outF, goutF, "F")
+    if outR is not None:
+        check_gen_scalar(c, info, real, False, jit, outR, goutR, "R")
     if bitwise:
         ok = (same_float(real["root"], mF["root"]) and real["ai"] == mF["ai"] and real["it"] == mF["it"]
               and same_float(real["lo0"], mF["lo0"]) and same_float(real["hi0"], mF["hi0"]))
@@ -380,15 +417,20 @@ def corr(c, tier, rng):
     for i, cs in enumerate(cases):
         cs["as_array"] = (i % 7 != 3)
     jit_idx = set(range(0, len(cases), 8 if quick else 5))
-    lines, slots = [], []
+    lines, slots, gslots = [], [], []
     for i, cs in enumerate(cases):
-        r = None
+        r = gr = None
         if cs["fam"] in DYADIC_FAMS or cs["fam"] == "cubic":
             r = len(lines)
             lines.append(bis_line(cs, "R"))
+            gr = len(lines)
+            lines.append(gen_line(bis_line(cs, "R")))
         f = len(lines)
         lines.append(bis_line(cs, "F"))
+        gf = len(lines)
+        lines.append(gen_line(bis_line(cs, "F")))
         slots.append((r, f))
+        gslots.append((gr, gf))
     ar_cases = ar_make_cases(rng, 18 if quick else 200, max_inverter_dim=3 if quick else 6)
     ar_slots = []
     for ac in ar_cases:
@@ -396,7 +438,15 @@ def corr(c, tier, rng):
         lines.append(ar_line(ac, "R"))
         f = len(lines)
         lines.append(ar_line(ac, "F"))
-        ar_slots.append((r, f))
+        gr = len(lines)
+        lines.append(gen_line(ar_line(ac, "R")))
+        gf = len(lines)
+        lines.append(gen_line(ar_line(ac, "F")))
+        ir = len(lines)
+        lines.append(ginv_line(ac, "R"))
+        jf = len(lines)
+        lines.append(ginv_line(ac, "F"))
+        ar_slots.append((r, f, gr, gf, ir, jf))
     lib_cases = lib_make_cases(rng, 6 if quick else 40)
     lib_slots = []
     for lc in lib_cases:
@@ -407,15 +457,17 @@ def corr(c, tier, rng):
     for g in guard_cases:
         g_slots.append(len(lines))
         lines.append(g["line"])
+        lines.append(gen_line(g["line"]))
     outs = vlib.run_model(lines, timeout=1200)
-    for i, (cs, (r, f)) in enumerate(zip(cases, slots)):
-        check_scalar(c, cs, i in jit_idx, outs[r] if r is not None else None, outs[f])
-    for k, (ac, (r, f)) in enumerate(zip(ar_cases, ar_slots)):
-        check_ar(c, ac, outs[r], outs[f], jit=((k // 4) % 3 == 1 and (not quick or ac["n"] <= 4)))
+    for i, (cs, (r, f), (gr, gf)) in enumerate(zip(cases, slots, gslots)):
+        check_scalar(c, cs, i in jit_idx, outs[r] if r is not None else None, outs[f], outs[gr] if gr is not None else None, outs[gf])
+    for k, (ac, (r, f, gr, gf, ir, jf)) in enumerate(zip(ar_cases, ar_slots)):
+        check_ar(c, ac, outs[r], outs[f], jit=((k // 4) % 3 == 1 and (not quick or ac["n"] <= 4)),
+                 gen=dict(R=outs[gr], F=outs[gf], invR=outs[ir], invF=outs[jf]))
     for lc, sl in zip(lib_cases, lib_slots):
         check_lib(c, lc, outs[sl])
     for g, s in zip(guard_cases, g_slots):
-        check_guard(c, g, outs[s])
+        check_guard(c, g, outs[s], outs[s + 1])
     c.notes.append("exact class = Rat model and Float model coincide on root, counts, brackets and all evaluation points; "
                    "in that class the real float64 run is compared bit-for-bit with the exact-arithmetic (Rat) instance the theorems speak about")
 
@@ -535,6 +587,32 @@ def ar_line(ac, mode):
     return " ".join(toks)
 
 
+def inverter_offset(ac):
+    """(coefs of the bijection's transform, y): via `inverter_y` the transform is map + y0 (dyadic y0) inverted at y = y0, otherwise the map at y = 0"""
+    n = ac["n"]
+    if ac["via"] == "inverter_y":
+        y0 = [Fr(i + 1, 2) for i in range(n)]
+        coefs = [list(cf) for cf in ac["coefs"]]
+        for i in range(n):
+            coefs[i][-1] = coefs[i][-1] + y0[i]
+        return coefs, y0
+    return [list(cf) for cf in ac["coefs"]], [Fr(0)] * n
+
+
+def ginv_line(ac, mode):
+    """generated `AutoregressiveBisectionInverter.__check_init__` + `.__call__(bijection, y)`: `fn(x) = bijection.transform(x, None) - y` is
+    evaluated by the GENERATED closure (one more float subtraction per evaluation, exactly as in the real `__call__`)"""
+    num = rtok if mode == "R" else (lambda v: f2b(float(v)))
+    coefs, y = inverter_offset(ac)
+    toks = ["ginv", mode, num(ac["lower"]), num(ac["upper"]), num(Fr(ac["tol"])), str(ac["mi"]), str(FUEL), str(ac["n"])]
+    for fm, cf in zip(ac["fams"], coefs):
+        toks += fn_tokens(fm, cf, mode)
+    toks.append(",".join(num(v) for row in ac["L"] for v in row))
+    toks.append(",".join(num(v) for row in ac["M"] for v in row))
+    toks.append(",".join(num(v) for v in y))
+    return " ".join(toks)
+
+
 def parse_ar(out, mode):
     t = out.split(" ")
     if t[0] != "ok":
@@ -586,7 +664,27 @@ def real_ar(ac, jit):
     return [float(v) for v in np.asarray(res)], counts, [float(v) for v in np.asarray(y)]
 
 
-def check_ar(c, ac, outR, outF, jit):
+def check_gen_ar(c, ac, info, gen, outR, outF, roots, exact, jit):
+    """generated `_autoregressive_bisection_search` (op `gar`) and generated `__call__` (op `ginv`) beside the hand model and the real code"""
+    for mode, out in (("R", outR), ("F", outF)):
+        c.count(f"generated:ar:{mode}")
+        if gen[mode].split(" ")[:2] != out.split(" ")[:2]:
+            c.mismatch("generated-vs-model-autoregressive", mode=mode, model=out[:160], generated=gen[mode][:160], **info)
+    # `__call__`: in exact arithmetic (map + y0) - y0 is the map, so the Rat run must reproduce the hand model's roots
+    c.count("generated:inverter-call:" + ac["via"])
+    if gen["invR"].split(" ")[:2] != outR.split(" ")[:2]:
+        c.mismatch("generated-inverter-call-vs-model", mode="R", model=outR[:160], generated=gen["invR"][:160], **info)
+    if not gen["invF"].startswith("ok "):
+        c.mismatch("generated-inverter-call-did-not-return", generated=gen["invF"][:100], **info)
+        return
+    gF = dict(roots=[b2f(v) for v in gen["invF"].split(" ")[1].split(",")])
+    if ac["via"] in ("inverter", "inverter_y") and (exact or not jit):
+        # the real AutoregressiveBisectionInverter.__call__ on the same bijection and y: bit for bit (the y-offset subtraction included)
+        if not (len(roots) == len(gF["roots"]) and all(same_float(a, b) for a, b in zip(roots, gF["roots"]))):
+            c.mismatch("generated-inverter-call-vs-impl-bitwise", exact_class=exact, generated=gF["roots"], impl=roots, **info)
+
+
+def check_ar(c, ac, outR, outF, jit, gen=None):
     info = dict(n=ac["n"], fams=ac["fams"], coefs=[[str(v) for v in cf] for cf in ac["coefs"]], L=[[str(v) for v in r] for r in ac["L"]],
                 M=[[str(v) for v in r] for r in ac["M"]], xs=[str(v) for v in ac["xs"]], lower=str(ac["lower"]), upper=str(ac["upper"]),
                 tol=ac["tol"], max_iter=ac["mi"], via=ac["via"], jit=jit)
@@ -601,6 +699,8 @@ def check_ar(c, ac, outR, outF, jit):
     sig = ("ar", ac["n"], tuple(ac["fams"]), tuple(str(v) for cf in ac["coefs"] for v in cf), tuple(str(v) for r in ac["L"] for v in r),
            tuple(str(v) for r in ac["M"] for v in r), str(ac["lower"]), str(ac["upper"]), ac["tol"], ac["mi"], ac["via"], jit)
     c.case(sig, True, sample=dict(op=ar_line(ac, "R")[:200], model=outR[:200], impl=roots) if ac["n"] == 3 and ac["via"] == "search" else None)
+    if gen is not None:
+        check_gen_ar(c, ac, info, gen, outR, outF, roots, exact, jit)
     plain = ac["via"] != "inverter_y"   # the y-offset variant adds one more float op per evaluation
     if exact or (not jit and plain):
         if not (len(roots) == len(mF["roots"]) and all(same_float(a, b) for a, b in zip(roots, mF["roots"]))):
@@ -692,7 +792,7 @@ def guard_make_cases(rng):
     return gs
 
 
-def check_guard(c, g, out):
+def check_guard(c, g, out, gout=None):
     if g["kind"] == "search":
         try:
             _bisection_search(lambda x: 1.0 * x + -0.5, lower=jnp.asarray(-10.0), upper=jnp.asarray(10.0), tol=g["tol"], max_iter=g["mi"])
@@ -709,6 +809,11 @@ def check_guard(c, g, out):
         model_raises = out == "0"
     c.case(("guard", g["line"]), True)
     c.count("guard:" + g["kind"])
+    if gout is not None:
+        gen_raises = (gout == "valueerror") if g["kind"] == "search" else (gout == "0")
+        c.count("generated:guard:" + g["kind"])
+        if gen_raises != raised or gen_raises != model_raises:
+            c.mismatch("generated-guard-vs-impl", generated=gout, model=out, impl_raised=raised, **{k: v for k, v in g.items() if k != "line"})
     if raised != model_raises:
         c.mismatch("guard-model-vs-impl", model=out, impl_raised=raised, **{k: v for k, v in g.items() if k != "line"})
 
